@@ -309,6 +309,7 @@ def run(ctx):
     lap("jobs")
     pq = C.Pqref()
     footprint_premise(ctx, pq, datasets, fp_jobs, [by_id[id(j)] for j in fp_jobs], fp_state)
+    op_table_tie(ctx, fp_state)
     pq.close()
     lap("footprint_check")
     if ctx.broken and not ctx.failures:
@@ -385,6 +386,7 @@ def static_inventory(ctx):
         else:
             ctx.coq_file(os.path.join(C.COQ, "genproofs", "GenOpReadsProofs.v"), extra_q=[(ctx.gen_dir, "PqGen")])
             tab = ores["table"]
+            INV["optable"] = tab
             ctx.extra["op_table"] = {"rows": {r_["op"]: {"functions": r_["functions"], "reads": len(r_["reads"]),
                                                         "writes": sorted(set("%s:%s" % (w_["slot"], w_["pattern"]) for w_ in r_["writes"]))[:30]}
                                               for r_ in tab["rows"]},
@@ -675,12 +677,13 @@ def _fp_job(job):
             if isinstance(want, list) and want[:2] == ["EXC", "TimeoutError"] and "did not return within" in str(want[2]):
                 raise TimeoutError(want[2])
         except TimeoutError as e:
-            out.append((op, ["EXC", "TimeoutError", "alone: " + str(e)], [("start", {})], 0, 0, None, [], []))
+            out.append((op, ["EXC", "TimeoutError", "alone: " + str(e)], [("start", {})], 0, 0, None, [], [], []))
             break
         cover = set()
+        areads = set()
         try:
             res, changes, nlines, scr = with_alarm((600 if not job["quick"] else 180) if opc else 120,
-                                                   conc.trace_footprint, pf, op, None, None, conc.FULL_EVERY, opc, cover)
+                                                   conc.trace_footprint, pf, op, None, None, conc.FULL_EVERY, opc, cover, areads)
         except TimeoutError:
             # the operation returns when run alone (just checked): the monitor was too slow on this machine right now
             notes.append("footprint of %s (%s) not taken: the traced run exceeded its time budget" % (okey(op), phase))
@@ -691,7 +694,7 @@ def _fp_job(job):
             continue
         evs = [(k_, o_, n_, p_, (st["file"], st["line"], st["end_line"], st["func"]) if st else conc.tag_prev(changes[-1][0]))
                for k_, o_, n_, p_, st in conc.trace_events(changes, INV["idx"] or {})] if INV["idx"] is not None else []
-        out.append((op, conc.canon(res), changes, nlines, scr, want, evs, sorted(cover)))
+        out.append((op, conc.canon(res), changes, nlines, scr, want, evs, sorted(cover), sorted(areads)))
     return {"calls": [], "extra": {"footprints_skipped_slow": len(notes)}, "notes": notes, "value": out}
 
 
@@ -743,8 +746,10 @@ def footprint_premise(ctx, pq, datasets, jobs, results, state):
             if own != di or res_list is None:
                 continue
             phase = job["fp_phase"]
-            for ri, (op, got, changes, nlines, scr, want, evs, cover) in enumerate(res_list):
+            for ri, (op, got, changes, nlines, scr, want, evs, cover, areads) in enumerate(res_list):
                 all_events.append((phase, op, evs))
+                if areads:
+                    state.setdefault("attr_reads", {}).setdefault(ROW_OF.get(op["op"], op["op"]), set()).update(areads)
                 for fl in cover:
                     covered.setdefault(tuple(fl), []).append((di, op, phase))
                 kinds = conc.classify_trace(changes)
@@ -805,6 +810,30 @@ def footprint_premise(ctx, pq, datasets, jobs, results, state):
                 for k in t[2]["added"]:
                     seen.add(conc_generic_key(k))
         ctx.extra["memo_keys_written"] = sorted(seen)[:60]
+
+
+ROW_OF = {"index": "slice", "slice_only": "slice", "slice_stats": "slice", "deepcopy": "copy"}
+
+
+def op_table_tie(ctx, state):
+    """tie of translators/opreads.py: every attribute the traced operations actually load as data (LOAD_ATTR instructions in
+    package frames, instruction-granular traces) must be in the regenerated read set of the operation's row"""
+    tab = INV.get("optable")
+    dyn = state.get("attr_reads") or {}
+    if tab is None or not dyn:
+        return
+    rows = {r_["op"]: set(r_["reads"]) for r_ in tab["rows"]}
+    missing, n = [], 0
+    for opk, attrs in sorted(dyn.items()):
+        if opk not in rows:
+            continue
+        n += len(attrs)
+        for a_ in sorted(attrs):
+            if a_ not in rows[opk] and (a_ + "[*]") not in rows[opk]:
+                missing.append("%s.%s" % (opk, a_))
+    ctx.extra.setdefault("op_table", {})["dynamic_attribute_loads_checked"] = n
+    ctx.obligation("op table tie: every attribute loaded by a traced operation is in the regenerated read set of its row (%d loads of %d rows)" % (n, len(dyn)),
+                   not missing, "loaded at run time but not in the static read set: %s" % missing[:15])
 
 
 def footprint_events(ctx, di, all_events, targets):
